@@ -54,9 +54,11 @@ impl Labels {
 	}
 
 	pub(crate) fn get_or_create_range(&mut self, start_pc: u16, length: u16) -> Result<LabelRange> {
+		let end_pc = start_pc.checked_add(length)
+			.with_context(|| anyhow!("range starting at bytecode offset {start_pc:?} with length {length:?} out of bounds for code length {:?}", self.code_length))?;
 		Ok(LabelRange {
 			start: self.get_or_create(start_pc)?,
-			end: self.get_or_create_check_exclusive(start_pc + length)?,
+			end: self.get_or_create_check_exclusive(end_pc)?,
 		})
 	}
 
